@@ -34,8 +34,17 @@ def lanes(chk, db, rule):
         chk.unanalysable(rule, 'nop/utility/constexpr_buffer_writer.h', 'no WriteElement instance')
         return
     widths = set()
+    methods = [f for f in db.fns if f.get('rec') == 'nop::ConstexprBufferWriter']
+    roles = rw.resolve_roles(db, 'nop::ConstexprBufferWriter', methods)
+    if roles is None or not roles.buffer:
+        chk.unanalysable(rule, 'nop/utility/constexpr_buffer_writer.h', 'cannot resolve the position / buffer fields of ConstexprBufferWriter')
+        return
     for fn in fns:
         where = facts.site(fn)
+        if len(fn['params']) != 2:
+            chk.unanalysable(rule, where, 'WriteElement does not take (value, offset)')
+            continue
+        off = fn['params'][1]['n']
         t = fn['params'][0]['t']
         size = rw.SIZEOF.get(t)
         label = 'ConstexprBufferWriter::WriteElement(%s)' % t
@@ -51,7 +60,7 @@ def lanes(chk, db, rule):
             stores = [e for e in p.events if e.kind == 'store']
             got = {}
             for s in stores:
-                m = re.match(r'^f:buffer_\[(.*)\]$', s.target)
+                m = re.match(r'^f:%s\[(.*)\]$' % re.escape(roles.buffer), s.target)
                 v = repr(s.value)
                 mv = re.match(r'^\((p:\w+) >> (\d+)\)$', v)
                 if not m or not mv:
@@ -60,7 +69,7 @@ def lanes(chk, db, rule):
                     continue
                 idx = m.group(1)
                 # idx is a canonical polynomial "K + f:index_ + p:offset" or "f:index_ + p:offset"
-                mk = re.match(r'^(?:(\d+) \+ )?f:index_ \+ p:offset$', idx)
+                mk = re.match(r'^(?:(\d+) \+ )?f:%s \+ p:%s$' % (re.escape(roles.pos), re.escape(off)), idx)
                 if not mk:
                     ok = False
                     why.append('store index %s is not index_ + offset + k' % idx)
